@@ -141,7 +141,7 @@ func c11Check(env *h.Env, c *c11Case) error {
 	}
 	var eff []lvl
 	for _, l := range c.Levels {
-		opt := &fsutil.FilterOpt{IncludePatterns: listArg(l.Include, c.EmptyLists), ExcludePatterns: listArg(l.Exclude, c.EmptyLists), FollowPaths: listArg(l.Follow, c.EmptyLists)}
+		opt := &fsutil.FilterOpt{IncludePatterns: listArg(l.Include, c.EmptyLists), ExcludePatterns: listArg(l.Exclude, c.EmptyLists), FollowPaths: l.Follow}
 		eff = append(eff, lvl{c11EffectiveIncludes(view, l), l.Exclude})
 		nv, err := fsutil.NewFilterFS(view, opt)
 		if err != nil {
